@@ -385,7 +385,17 @@ func buildCtx(c map[string]sb.V) map[string]stick.Value {
 	}
 	out := make(map[string]stick.Value, len(c))
 	for k, v := range c {
-		out[k] = Build(v)
+		if v.K != "wrapof" {
+			out[k] = Build(v)
+		}
+	}
+	// "wrapof": the very object held by another entry (named by S), marked
+	// safe for further types - the way a user filter re-marks a value it was
+	// handed. The entry it wraps must come out of this untouched.
+	for k, v := range c {
+		if v.K == "wrapof" {
+			out[k] = stick.NewSafeValue(out[v.S], v.TS...)
+		}
 	}
 	return out
 }
